@@ -5,6 +5,7 @@ import numpy as np
 from classy_blocks.construct.flat.face import Face
 from classy_blocks.construct.flat.sketches.disk import QuarterDisk
 from classy_blocks.construct.operations.loft import Loft
+from classy_blocks.construct.point import Point
 from classy_blocks.construct.shape import Shape
 from classy_blocks.types import NPPointType, NPVectorType, PointType, VectorType
 from classy_blocks.util import constants
@@ -106,6 +107,10 @@ class EighthSphere(Shape):
         radius_point = np.asarray(radius_point)
         normal = f.unit_vector(np.asarray(normal))
 
+        # the sphere itself (written as searchableSphere) is transformed along with the blocks
+        self._center = Point(center_point)
+        self._radius = Point(radius_point)
+
         self.lofts = eighth_sphere_lofts(center_point, radius_point, normal, self.geometry_label, diagonal_angle)
 
     ### Chopping
@@ -153,12 +158,16 @@ class EighthSphere(Shape):
         return [self.core, self.shell]
 
     @property
+    def parts(self):
+        return [*self.operations, self._center, self._radius]
+
+    @property
     def radius_point(self) -> NPPointType:
-        return self.shell[0].bottom_face.points[1].position
+        return self._radius.position
 
     @property
     def center_point(self) -> NPPointType:
-        return self.lofts[0].bottom_face.points[0].position
+        return self._center.position
 
     @property
     def normal(self) -> NPVectorType:
